@@ -11,6 +11,7 @@ Definition jv_res (pid : Z) (r : res) : jv :=
   | RRaw => JC "Raw" []
   | RVal => JC "Val" []
   | RTimeout => JC "TimeoutExpired" [JZ pid; JB (bs "nm")]
+  | RRawProbe => JC "RawProbe" []
   end.
 
 (* one fault: hand-written model, and what the contract demands (None = nothing) *)
@@ -25,6 +26,12 @@ Definition run_allfail (p : plat) (meth site : string) (e : err) (s : pstate) (p
   let c := Build_cond e s (pid =? 0) in
   JL [ jv_res pid (all_outcome p meth site c);
        (if err_ok p e then jopt (jv_res pid) (all_demanded p meth site c) else jnone) ].
+(* double fault: model outcome, acceptable set, and "is a known class" *)
+Definition run_probe (p : plat) (meth site : string) (e1 e2 : err) (pid : Z) : jv :=
+  let z := pid =? 0 in
+  JL [ jv_res pid (probe_outcome p meth site e1 e2 z);
+       (if err_ok p e1 && err_ok p e2 then JL (map (jv_res pid) (probe_allowed p meth site e1 e2 z)) else jnone);
+       jbool (known_probe_raw p meth site e1 e2 z) ].
 Definition run_pair (p : plat) (meth site1 site2 : string) (e1 e2 : err) (s : pstate) (pid : Z) : jv :=
   let z := pid =? 0 in
   JL [ jv_res pid (pair_outcome p meth site1 site2 e1 e2 s z);
@@ -131,7 +138,9 @@ Definition run_tables : jv :=
        JL (map (fun r => JL [jstr (sf_fn r); JL (map jstr (sf_fields r))]) (filter (fun r => negb (sfrow_ok r)) sysfield_rows));
        jbool (sfrows_complete sysfield_rows);
        JL (map (fun b => JL [jstr (l_meth b); jstr (l_site b)]) (filter (fun b => negb (ablock_ok b)) all_blocks));
-       jbool (ablocks_complete ladder_blocks all_blocks) ].
+       jbool (ablocks_complete ladder_blocks all_blocks);
+       JL (map (fun b => JL [jstr (l_meth b); jstr (l_site b)]) (filter (fun b => negb (prblock_ok b)) probe_blocks));
+       jbool (prblocks_complete ladder_blocks probe_blocks) ].
 
 (* named tuple of a system-wide function on a platform: probed field list, documented field list *)
 Definition run_sysfields (p : plat) (fn : string) : jv :=
